@@ -5,6 +5,7 @@ package redis
 
 import (
 	"errors"
+	"net"
 	"sort"
 	"time"
 
@@ -210,3 +211,20 @@ func (s *VerifSent) Filter() bool { return s.c.filter.Do(s.req) == Continue }
 
 // SetConfig replaces the service configuration, as OnSvcConfigUpdate does.
 func (r *VerifRig) SetConfig(cfg *service.Config) { r.p.cfg.Update(cfg) }
+
+// ServeConn runs a real downstream session (session.Serve) on conn until it ends.
+func (r *VerifRig) ServeConn(conn net.Conn) { r.p.handleConn(conn) }
+
+// VerifParseClusterNodes is parseClusterNodes, summarised: masters with their replica counts and slot counts.
+func VerifParseClusterNodes(data string) (masters int, replicas int, slots int, err error) {
+	insts, err := parseClusterNodes(data)
+	if err != nil {
+		return 0, 0, 0, err
+	}
+	for _, inst := range insts {
+		masters++
+		replicas += len(inst.Replicas)
+		slots += len(inst.Slots)
+	}
+	return
+}
